@@ -16,7 +16,7 @@
    [C11_outside_known] (the full statement wherever no key with a segment's SKI is registered
    under a different AS).                                                                    *)
 From RtrV Require Import Base.CSem Bgpsec.DigestSpec Bgpsec.Align Bgpsec.Validate
-     Bgpsec.DigestProofs Bgpsec.AlignProofs Bgpsec.ValidateProofs Bgpsec.DecisionProofs.
+     Bgpsec.Toy Bgpsec.DigestProofs Bgpsec.AlignProofs Bgpsec.ValidateProofs Bgpsec.DecisionProofs.
 Local Open Scope Z_scope.
 Local Notation length := List.length (only parsing).
 
@@ -144,7 +144,39 @@ Theorem C11_codes :
      validate sha256 load_pub ecdsa_verify d t = Some BGPSEC_UNSUPPORTED_AFI) /\
     (preconds d -> (exists g, In g (b_sigs d) /\ forall key, In key t -> rk_ski key <> sg_ski g) ->
      validate sha256 load_pub ecdsa_verify d t = Some BGPSEC_ROUTER_KEY_NOT_FOUND).
-Proof. exact validate_codes. Qed.
+Proof. exact (fun s l e => validate_gen_codes s l e false). Qed.
+
+(* ---- after the proposed fix (proposed_fixes/C11-ski-only-lookup.diff) ----------------------
+   [validate_fixed] is the same function with the loop's key selection restricted to keys whose AS
+   number equals tmp_sec->asn and retval preset to ROUTER_KEY_NOT_FOUND.  It decides [C11_full]'s
+   right-hand side.  Which of the two models /repo corresponds to is determined on every run by
+   tools/props/C11.py and written to the evidence. *)
+Theorem C11_full_after_fix :
+  forall (sha256 : list Z -> list Z) (load_pub : list Z -> bool)
+         (ecdsa_verify : list Z -> list Z -> list Z -> Z),
+    (forall spki h sg, ecdsa_verify spki h sg = 1 -> 8 <= Z.of_nat (length sg)) ->
+    forall d t,
+      wf_data d -> counts_ok d -> total_bytes d VALIDATION < 65536 -> n_len (b_nlri d) <= 128 ->
+      (validate_fixed sha256 load_pub ecdsa_verify d t = Some BGPSEC_VALID <->
+       preconds d /\ path_valid sha256 (sig_ok load_pub ecdsa_verify) t (to_update d)).
+Proof. exact decision_fixed. Qed.
+
+Theorem C11_codes_after_fix :
+  forall (sha256 : list Z -> list Z) (load_pub : list Z -> bool)
+         (ecdsa_verify : list Z -> list Z -> list Z -> Z) d t,
+    (b_path d = [] \/ b_sigs d = [] ->
+     validate_fixed sha256 load_pub ecdsa_verify d t = Some BGPSEC_INVALID_ARGUMENTS) /\
+    (b_path d <> [] -> b_sigs d <> [] -> b_path_len d <> b_sigs_len d ->
+     validate_fixed sha256 load_pub ecdsa_verify d t = Some BGPSEC_WRONG_SEGMENT_COUNT) /\
+    (b_path d <> [] -> b_sigs d <> [] -> b_path_len d = b_sigs_len d ->
+     b_alg d <> ALGORITHM_SUITE_1 ->
+     validate_fixed sha256 load_pub ecdsa_verify d t = Some BGPSEC_UNSUPPORTED_ALGORITHM_SUITE) /\
+    (b_path d <> [] -> b_sigs d <> [] -> b_path_len d = b_sigs_len d -> b_alg d = ALGORITHM_SUITE_1 ->
+     n_afi (b_nlri d) <> BGPSEC_IPV4 -> n_afi (b_nlri d) <> BGPSEC_IPV6 ->
+     validate_fixed sha256 load_pub ecdsa_verify d t = Some BGPSEC_UNSUPPORTED_AFI) /\
+    (preconds d -> (exists g, In g (b_sigs d) /\ forall key, In key t -> rk_ski key <> sg_ski g) ->
+     validate_fixed sha256 load_pub ecdsa_verify d t = Some BGPSEC_ROUTER_KEY_NOT_FOUND).
+Proof. exact (fun s l e => validate_gen_codes s l e true). Qed.
 
 Theorem C11_codes_not_valid :
   BGPSEC_INVALID_ARGUMENTS <> BGPSEC_VALID /\ BGPSEC_WRONG_SEGMENT_COUNT <> BGPSEC_VALID /\
@@ -180,8 +212,10 @@ Example C11_example :
    n_len (b_nlri w_data) <= 128) /\
   (validate toy_sha toy_load toy_verify w_data w_table_ok = Some BGPSEC_VALID /\
    no_foreign_keys w_table_ok (to_update w_data)) /\
-  validate toy_sha toy_load toy_verify w_data w_table = Some BGPSEC_VALID.
-Proof. exact (conj w_wf (conj w_ok_valid w_valid)). Qed.
+  validate toy_sha toy_load toy_verify w_data w_table = Some BGPSEC_VALID /\
+  (validate_fixed toy_sha toy_load toy_verify w_data w_table = Some BGPSEC_ROUTER_KEY_NOT_FOUND /\
+   validate_fixed toy_sha toy_load toy_verify w_data w_table_ok = Some BGPSEC_VALID).
+Proof. exact (conj w_wf (conj w_ok_valid (conj w_valid w_fixed))). Qed.
 
 Print Assumptions C11_size.
 Print Assumptions C11_layout.
@@ -193,3 +227,5 @@ Print Assumptions C11_outside_known.
 Print Assumptions C11_decision_exact.
 Print Assumptions C11_codes.
 Print Assumptions C11_bitflip.
+Print Assumptions C11_full_after_fix.
+Print Assumptions C11_codes_after_fix.
